@@ -91,13 +91,18 @@ def integrate(f, a, b):
     if a == -INF:
         return integrate(lambda x: f(-x), -b, INF)
     if b == INF:
-        # x = a + t / (1 - t), t in (0, 1)
-        def g(t):
-            if t >= 1.0:
-                return 0.0
-            x = a + t / (1.0 - t)
-            return f(x) / ((1.0 - t) * (1.0 - t))
-        return tanh_sinh(g, 0.0, 1.0)
+        # x = a + t / (1 - t), t in (0, 1); the nodes are given by their distance d from t = 0 resp. t = 1,
+        # so that the far tail x ~ 1/d is reached without cancellation
+        total = 0.0
+        for i, (om, w) in enumerate(_ts_nodes()):
+            d = 0.5 * om
+            if i == 0:
+                total += w * f(a + 1.0) * 4.0
+                continue
+            total += w * f(a + d / (1.0 - d)) / ((1.0 - d) * (1.0 - d))
+            if d * d > 1e-300:
+                total += w * f(a + (1.0 - d) / d) / (d * d)
+        return total * 0.5
     return tanh_sinh(f, a, b)
 
 
@@ -159,9 +164,33 @@ def pieces(lo, hi, brk):
     return list(zip(pts, pts[1:]))
 
 
+def guarded(f, lo, hi, far=1e12):
+    """the density for the quadrature: an arithmetic exception (or NaN) closer than 1e-20 (relative) to a finite end
+    of the support, or further than [far] out in an infinite tail - where the tanh-sinh nodes go and intermediate
+    powers over/underflow - counts as 0 there: the property does not quantify over such arguments.  The calls oracle
+    of harness/c15.py reports exceptions at ordinary arguments."""
+    scale = max(abs(lo) if math.isfinite(lo) else 0.0, abs(hi) if math.isfinite(hi) else 0.0, 1.0)
+
+    def near(x):
+        return ((math.isfinite(lo) and abs(x - lo) < 1e-20 * scale) or (math.isfinite(hi) and abs(x - hi) < 1e-20 * scale)
+                or abs(x) > far)
+
+    def g(x):
+        try:
+            v = f(x)
+        except (OverflowError, ZeroDivisionError, ValueError):
+            if near(x):
+                return 0.0
+            raise
+        if v != v and near(x):
+            return 0.0
+        return v
+    return g
+
+
 def total_mass(obj, case):
     lo, hi = support(case, obj)
-    f = obj.probability_density
+    f = guarded(obj.probability_density, lo, hi, case.get("far", 1e12))
     return sum(integrate(f, a, b) for a, b in pieces(lo, hi, breakpoints(case)))
 
 
@@ -230,7 +259,12 @@ def num_case(case):
                 fnd.append(["density-raises", f"quadrature: {type(exc).__name__}: {exc}"])
                 m = None
             out["mass"] = m
-            if m is not None and not abs(m - 1.0) <= 1e-4:
+            tol = 1e-4
+            if c == "DistBeta":
+                b2 = float(decode_param(case["params"][1]))
+                if b2 < 1.0:
+                    tol += 3.0 * (2.0 ** -53) ** b2 / b2
+            if m is not None and not abs(m - 1.0) <= tol:
                 fnd.append(["density-does-not-integrate-to-one", f"quadrature of probability_density over the support = {m!r}"])
         if c in HAS_CDF:
             cdf_checks(obj, case, fnd)
@@ -295,7 +329,7 @@ def cdf_checks(obj, case, fnd):
         except Exception as exc:  # noqa
             fnd.append(["cdf-raises", f"cumulative_probability({x!r}) raised {type(exc).__name__}"])
             return
-        if abs(y2 - y) > 5e-6 * min(y, 1 - y) + 1e-12:
+        if abs(y2 - y) > 5e-6 * min(y, 1 - y) + 2e-7:      # erf_inv: documented relative error 4.5e-8 on x
             fnd.append(["cdf-inverse-cdf-not-inverse", f"cumulative_probability(inverse_cumulative_probability({y!r})) = {y2!r}"])
             return
         if prev is not None and x < prev[1] - 1e-7 * (1.0 + abs(prev[1])):
@@ -335,7 +369,7 @@ def stats_case(case):
         else:
             xs.sort()
             lo, hi = support(case, obj)
-            f = obj.probability_density
+            f = guarded(obj.probability_density, lo, hi, case.get("far", 1e12))
             qs = [xs[(n * j) // 100] for j in range(1, 100)]
             brk = breakpoints(case)
             cum, prev, dist, worst = 0.0, None, 0.0, None
